@@ -48,7 +48,9 @@ def run(chk):
         "(kind set, fallible) pairs, summaries for the TypeDef/Kind methods) for every arithmetic/comparison/`&&` opcode and every pair of operand kinds "
         "from a 16-element family (9 exact kinds + unions); whenever the result is infallible, no (self variant, rhs variant) pair inside the operand kinds "
         "may reach a type-mismatch or zero-division ValueError in the matching VrlValueArithmetic method (P-VAR over the method's MIR, coercion calls "
-        "included). Undecided: pending_fallibilities bookkeeping (seeding agents found `{ to_int(.x); 6 } / 2` accepted), the NaN exception the source "
+        "included). R02g (coercions narrower than the declared parameter kind): when resolve (or the stdlib helper an argument is handed to) applies a "
+        "VrlValueConvert::try_* coercion to an argument in a P-VAR state that still admits a variant the parameter declares but the coercion rejects, "
+        "the function's type_def — evaluated abstractly (P-ABS) with that argument typed exactly that kind — must be fallible. Undecided: pending_fallibilities bookkeeping (seeding agents found `{ to_int(.x); 6 } / 2` accepted), the NaN exception the source "
         "documents (float results that become NaN), operators applied to constants (resolve_constant is abstracted as None), `|` (Op::new admits only objects).")
     M = fmap.FMap(facts)
     rid = "R02a"
@@ -159,6 +161,7 @@ def run(chk):
 
     rule_r02d(chk)
     rule_r02e(chk)
+    rule_r02g(chk, M)
     from p_c01 import rule_r01g
     rule_r01g(chk)          # shared with C01: a branch compiled on the other branch's variable types yields infallible-typed calls that fail
 
@@ -323,3 +326,108 @@ def rule_r02e(chk):
             chk.violation(rid, facts.body(name).file, name, "%s drops the fallibility of its operand" % label,
                           "%s: the operand is always evaluated and fallible, but the expression is typed infallible (its error is neither handled nor "
                           "reported, e.g. `parse_json(raw).status` without `!`)" % label, detail=d)
+
+
+COERCE_ACCEPTS = {"try_bytes": {"Bytes"}, "try_bytes_utf8_lossy": {"Bytes"}, "try_timestamp": {"Timestamp"}, "try_integer": {"Integer"},
+                  "try_float": {"Float"}, "try_boolean": {"Boolean"}, "try_object": {"Object"}, "try_array": {"Array"}, "try_regex": {"Regex"},
+                  "try_null": {"Null"}, "try_into_f64": {"Integer", "Float"}, "try_into_i64": {"Integer", "Float"}}
+
+
+def rule_r02g(chk, M):
+    import tinfo
+    import stdlibrules as sr
+    from varflow import VarFlow, MOVED
+    facts = chk.facts
+    rid = "R02g"
+    chk.rule(rid, "a coercion that rejects a variant the parameter declares is matched by a fallible type_def for that argument type", floor=100)
+    bitname = {"BYTES": "bytes", "INTEGER": "integer", "FLOAT": "float", "BOOLEAN": "boolean", "OBJECT": "object", "ARRAY": "array",
+               "TIMESTAMP": "timestamp", "REGEX": "regex", "NULL": "null"}
+
+    def rejected_variants(name, local, declared):
+        """[(variant, line, coercion)] for coercions of the Value in `local` that can see a declared variant they do not accept"""
+        b = facts.body(name)
+        al = sr.value_aliases(b, [local])
+        vals = [x for x in al if b.local_ty(x).endswith("value::value::Value")]
+        vf = VarFlow(facts, b, extra_locals=sorted(vals))
+        out = []
+
+        def on_term(bb, t, st):
+            if t["k"] != "call" or not t["args"]:
+                return
+            m = re.search(r"VrlValueConvert>::(try_\w+)$", b.callee(t))
+            if not m or m.group(1) not in COERCE_ACCEPTS or op_local(t["args"][0]) not in al:
+                return
+            cur = None
+            for x in sorted(al):
+                for k in ("_%d" % x, "(*_%d)" % x):
+                    v = st.get(k)
+                    if v is not None:
+                        vs = set(v) - {MOVED}
+                        if vs and vs <= set(VAR_OF.values()):
+                            cur = vs if cur is None else (cur & vs)
+            cur = cur if cur is not None else set(VAR_OF.values())
+            for v in sorted((cur & declared) - COERCE_ACCEPTS[m.group(1)]):
+                out.append((v, t["ln"], m.group(1), name))
+        vf.run(on_term=on_term)
+        return out
+
+    n_args = 0
+    for f in M.functions.values():
+        ident = f["identifier"]
+        params = {p["keyword"]: p for p in (fmap.parameters_of(facts, f) or []) if p.get("keyword")}
+        for e in f["exprs"]:
+            tname = M.method_body(e, "type_def")
+            adt = facts.adts.get(e)
+            rn = M.resolve_body(e)
+            if not tname or not adt or not rn:
+                continue
+            rb = facts.body(rn)
+            v = adt["variants"][0]
+            fields, kinds_of = {}, {}
+            for fld, ty in zip(v["fields"], v["ftys"]):
+                if re.match(r"^std::boxed::Box<\(?dyn compiler::expression::Expression", ty):
+                    fields[fld] = tinfo.boxed(tinfo.Expr(fld))
+                elif ty.startswith("std::option::Option<std::boxed::Box<"):
+                    fields[fld] = tinfo.Enum("std::option::Option", "Some", {"0": tinfo.boxed(tinfo.Expr(fld))})
+                else:
+                    fields[fld] = tinfo.UNK
+                p = params.get(fld)
+                kinds_of[fld] = {n for b_, n in bitname.items() if p and p.get("kind") and p["kind"] & fmap.KIND_BITS[b_]} or set(tinfo.KINDS)
+            for fld, ty in zip(v["fields"], v["ftys"]):
+                if not re.match(r"^std::boxed::Box<\(?dyn compiler::expression::Expression", ty) or fld not in params or not params[fld].get("kind"):
+                    continue
+                starts = sr.argument_value_locals(facts, rb, fld)
+                if len(starts) != 1:
+                    continue
+                declared = {VAR_OF[k] for k in kinds_of[fld] if k in VAR_OF}
+                rej = rejected_variants(rn, starts[0], declared)
+                al = sr.value_aliases(rb, starts)
+                for bb, t in rb.calls():
+                    cal = rb.callee(t)
+                    pos = [i for i, a in enumerate(t["args"]) if op_local(a) in al]
+                    if pos and facts.has(cal) and (cal.startswith("stdlib::") or cal.startswith("<stdlib::")) and "::{closure" not in cal:
+                        cb = facts.body(cal)
+                        if pos[0] + 1 <= cb.argc:
+                            rej += rejected_variants(cal, pos[0] + 1, declared)
+                n_args += 1
+                bad = []
+                for var, ln, co, where in rej:
+                    exprs = {k2: tinfo.TD(set(v2)) for k2, v2 in kinds_of.items()}
+                    exprs[fld] = tinfo.TD({KIND_OF[var]})
+                    it = tinfo.Interp(facts, exprs)
+                    try:
+                        res = it.call_body(tname, [tinfo.Ref(tinfo.Enum(e, None, dict(fields))), tinfo.Ref(tinfo.ST())])
+                    except tinfo.Undecided:
+                        continue
+                    if isinstance(res, tinfo.TD) and not res.fallible:
+                        bad.append((var, co, where, ln))
+                d = {"function": ident, "argument": fld, "declared": sorted(declared), "rejecting_coercions": sorted(set((x[0], x[2]) for x in rej))[:6],
+                     "typed_infallible_for": sorted(set(x[0] for x in bad))}
+                chk.instance(rid, d, ok=not bad)
+                for var, co, where, ln in sorted(set(bad)):
+                    wb = facts.body(where)
+                    chk.violation(rid, wb.file, where, "`%s`: %s rejects a %s `%s`" % (ident, co, var.lower(), fld),
+                                  "`%s` declares parameter `%s` as accepting %s, and is typed infallible for a %s argument, but %s (%s:%s) returns an error for "
+                                  "it: a call accepted without `!` fails at run time" % (ident, fld, "|".join(sorted(k for k in kinds_of[fld])), var.lower(), co,
+                                                                                       wb.file, ln), detail=d, loc="%s:%s" % (wb.file, ln))
+    chk.extra["R02g_arguments_examined"] = n_args
